@@ -33,7 +33,8 @@ XML_STRUCT_FAULTS = [
 JSON_STRUCT_FAULTS = ["key_delete", "key_rename", "value_junk", "list_wrap", "list_unwrap", "key_add", "list_grow", "nest_value"]
 XSI_TYPES = ["nosuchtype", "xs:nosuch", "item", "dog", "xs:int", "xs:QName", "xs:date", "xs:hexBinary", "xs:base64Binary", "xs:boolean", "xs:duration", "xs:dateTime", "xs:gYear",
              "xs:decimal", "xs:float", "xs:NMTOKENS", "xs:anyURI", "xs:NOTATION", "xs:time", "xs:unsignedByte", "xs:anyType", "xs:anySimpleType", "xs:string", "xs:language", "xs:IDREFS"]
-JUNK_TEXT = ["", " ", "abc", "-1", "1e999", "NaN", "2020-13-45", "true1", "99999999999999999999999999", "0x10", "p:undeclared", "{", "{urn:x}y", "١٢٣", "1 2 3", "--", "P", "24:00:00", "x" * 300, "\t\n", "1.5.5", "+", "é"]
+JUNK_TEXT = ["+", "-", "1_000", "0x1", "Infinity", "nan", "1e400", " 5 ", "TRUE", "true ", "-P", "P1Y2M3DT", "PT", "2020-01-01T00:00:00+15:00", "0000-01-01", "2020-02-30", "12:00:00.1234567890123", "--02-30", "-0", ".", "1.", "1e", "٣", "٣.٥",
+             "", " ", "abc", "-1", "1e999", "NaN", "2020-13-45", "true1", "99999999999999999999999999", "0x10", "p:undeclared", "{", "{urn:x}y", "١٢٣", "1 2 3", "--", "P", "24:00:00", "x" * 300, "\t\n", "1.5.5", "+", "é"]
 JUNK_JSON = [None, True, 0, -1, 1.5, 1e400, "", "abc", [], [[]], [1, [2]], {}, {"a": 1}, {"qname": "q", "type": None, "value": 1}, {"qname": "q", "text": None, "tail": None, "children": [], "attributes": {}}, [None], "9" * 40, {"value": {}}]
 
 
